@@ -7,7 +7,7 @@ WT=/var/tmp/wt/benign_$$
 git -C /repo worktree add -q --detach "$WT" HEAD || exit 2
 if ! git -C "$WT" apply "$D/patch.diff"; then echo "$D: PATCH DOES NOT APPLY"; git -C /repo worktree remove --force "$WT"; exit 2; fi
 cd "$(dirname "$0")/.."
-for PID in $(/venv/bin/python -c "import json; print(' '.join(p for p in json.load(open('$D/meta.json'))['properties'] if p in 'C01 C02 C03 C04 C05 C06 C07 C08 C09 C10 C11 C13 C15 C16 C17 C18 C19 C20'.split()))"); do
+for PID in $(/venv/bin/python -c "import json; print(' '.join(p for p in json.load(open('$D/meta.json'))['properties'] if p in 'C01 C02 C03 C04 C05 C06 C07 C08 C09 C10 C11 C12 C13 C15 C16 C17 C18 C19 C20'.split()))"); do
   VF_REPO="$WT" VF_OUT=/verif/out/benignruns ./vf check "$PID" --tier "$TIER" > "$D/check_${PID}_$TIER.log" 2>&1 && RC=0 || RC=$?
   echo "$(basename $D) property=$PID tier=$TIER exit=$RC $(grep -c '^VIOLATION' "$D/check_${PID}_$TIER.log") violation lines, $(grep -c '^inconclusive' "$D/check_${PID}_$TIER.log") inconclusive lines"
 done
